@@ -21,7 +21,8 @@ wt = "/tmp/mut/r%d_%d" % (os.getpid(), int(time.time()))
 subprocess.run(["git", "-C", "/repo", "worktree", "add", "-q", "--detach", wt, "HEAD"], check=True)
 lines = []
 try:
-    subprocess.run(["git", "-C", wt, "apply", os.path.join(d, "patch.diff")], check=True)
+    pf = os.path.join(d, "patch_rebased.diff")
+    subprocess.run(["git", "-C", wt, "apply", pf if os.path.exists(pf) else os.path.join(d, "patch.diff")], check=True)
     still = []
     for cls, test in failed:
         parts = cls.split(".")
